@@ -9,7 +9,7 @@ import warnings
 import numpy as np
 
 from . import probes, interp
-from .common import digest
+from .common import scribble, digest
 
 chi = probes.chi
 
@@ -54,6 +54,7 @@ def replay_case(arg):
     except Exception as e:
         fail('SetSelection', type(e).__name__, repr(e))
         return fails, cnt
+    scribble(cm)
     pidx, didx = cm.get_set_population_parameters()
     got_sel = [[int(a), int(b)] for a, b in zip(pidx, didx)]
     if got_sel != norm0:
